@@ -332,10 +332,18 @@ def proto_data_received(u: U):
             # the parser hands EMPTY_PAYLOAD out for a message that cannot have a body (1xx, 204, 304)
             return [(_Msg(), "EMPTY" if _Msg.code in (100, 102, 204) else _Pl())] * n_msgs, False, b""
 
+    if has_pp and has_parser and not upgraded:
+        # state invariant of the protocol: a payload parser is installed by set_parser() only on a connection that was
+        # upgraded (ws_connect after the 101) - the HTTP parser is then out of the picture for good
+        return
+    pp_eof = u.choose(2, "payload_parser.eof") == 1 if has_pp else False
+    pp_tail = u.bytes("payload_parser.tail") if pp_eof else b""
+    cb_set = u.choose(2, "data_received_cb") == 1 if has_pp else False
+
     class _PP:
         def feed_data(self, d):
             log.append(("ws.feed", d))
-            return False, b""
+            return pp_eof, pp_tail
 
     class _T:
         def close(self):
@@ -343,7 +351,8 @@ def proto_data_received(u: U):
 
     tail0 = u.bytes("tail0")
     p = u.obj("ResponseHandler",
-              {"_payload_parser": _PP() if has_pp else None, "_data_received_cb": None, "_upgraded": upgraded,
+              {"_payload_parser": _PP() if has_pp else None,
+               "_data_received_cb": (lambda: log.append(("activity",))) if cb_set else None, "_upgraded": upgraded,
                "_parser": _Parser() if has_parser else None, "_tail": tail0, "transport": _T(), "_should_close": False,
                "_payload": None, "_skip_payload": u.choose(2, "skip_payload") == 1 if has_parser and not parse_fails else False,
                "_read_timeout_handle": "ARMED-TIMER" if u.choose(2, "read_timer_armed") else None,
@@ -363,7 +372,24 @@ def proto_data_received(u: U):
     names = [e[0] for e in log]
     fs = fields(p)
     if has_pp:
-        u.check("C06.data.custom_parser_gets_all", names == ["ws.feed"], "with a payload parser installed the HTTP parser sees nothing")
+        u.check("C06.data.custom_parser_gets_all", [n for n in names if n != "activity"] == ["ws.feed"]
+                and log[names.index("ws.feed")][1] is data,
+                "with a payload parser installed it gets exactly these bytes, once, and the HTTP parser sees nothing")
+        if cb_set:
+            u.check("C06.data.custom_parser.activity_reported", names.count("activity") == 1,
+                    "the read-activity callback (heartbeat reset) runs once per read")
+        if pp_eof:
+            # the payload parser is done (the WebSocket stream ended): it is uninstalled, and whatever it did not consume
+            # is kept - in order, behind what was already waiting - for whoever reads this connection next; it is never
+            # handed to an HTTP parser as (part of) a response
+            u.check("C06.data.custom_parser.eof_uninstalls", And(fs["_payload_parser"] is None, fs["_payload"] is None),
+                    "a payload parser that reports end-of-stream is uninstalled")
+            u.check("C06.data.custom_parser.unconsumed_tail_is_kept_not_parsed",
+                    isinstance(fs["_tail"], (SBytes, bytes)) and SBytes.of(fs["_tail"]).prov_eq(SBytes.of(tail0) + SBytes.of(pp_tail))
+                    ,
+                    "bytes behind the end of the payload parser's stream are appended to _tail (connection not clean)")
+        else:
+            u.check("C06.data.custom_parser.stays", fs["_payload_parser"] is not None, "the payload parser stays installed")
         return
     if not has_parser or upgraded:
         u.check("C06.data.no_parser_buffers", "http.feed" not in names and isinstance(fs["_tail"], SBytes)
